@@ -308,10 +308,10 @@ def generate(ctx):
     for what in ("window_too_large", "uint8_mask", "int_image"):
         for _ in range(ctx.n(6, 40)):
             cases.append(_mal_case(rng, what))
-    for _ in range(ctx.n(250, 3000)):
+    for _ in range(ctx.n(200, 3000)):
         cases.append(_otsu_case(rng))
     cases.extend(_fmul_cases(rng, ctx.n(300, 3000)))
-    for _ in range(ctx.n(120, 1500)):
+    for _ in range(ctx.n(90, 1500)):
         cases.append(_body_case(rng, "rob"))
         cases.append(_body_case(rng, "mct"))
     for c in cases:
